@@ -63,6 +63,12 @@ def cells(tier):
                     'opts': ['permA', 'permC', 'tempA', 'tempC'],
                     'kinds': ['mapping']})
         out.append({'kind': 'real', 'backend': 'dict'})
+        out.append({'backend': 'dict', 'n': 2, 'rounds': 2, 'store_pool': 1,
+                    'opts': ['ok', 'permA', 'tempA'],
+                    'kinds': ['mapping', 'transient', 'permanent']})
+        out.append({'backend': 'dict', 'n': 2, 'rounds': 1, 'store_pool': 1,
+                    'bounce_queue': 'self', 'opts': ['ok', 'permA'],
+                    'kinds': ['mapping', 'permanent']})
         out.append({'backend': 'dict', 'n': 2, 'rounds': 1,
                     'bounce_queue': 'queue', 'opts': ['ok', 'permA', 'tempA'],
                     'kinds': ['mapping', 'permanent']})
